@@ -109,7 +109,7 @@ func (u *vc16ConcUploader) ownIndex(g, k int) (n int64) {
 }
 
 // Upload implements the Uploader interface for *vc16ConcUploader.
-func (u *vc16ConcUploader) Upload(_ context.Context, records Records) (err error) {
+func (u *vc16ConcUploader) Upload(ctx context.Context, records Records) (err error) {
 	nIn := u.inflight.Add(1)
 	defer u.inflight.Add(-1)
 
@@ -118,6 +118,13 @@ func (u *vc16ConcUploader) Upload(_ context.Context, records Records) (err error
 	u.mu.Lock()
 	fail := u.outcomes[u.calls%len(u.outcomes)]
 	u.calls++
+	if ctx.Err() != nil {
+		// A done context fails the upload whatever the script says.
+		fail = true
+		if len(records) > 0 {
+			u.classes["upload-with-done-context-nonempty"] = true
+		}
+	}
 	if nIn > 1 {
 		u.classes["overlapping-uploads"] = true
 	}
@@ -178,8 +185,8 @@ func (u *vc16ConcUploader) Upload(_ context.Context, records Records) (err error
 
 func TestVerifC16Concurrent(t *testing.T) {
 	st := vstat.New("C16", "billstat.concurrent",
-		"rapid-drawn workloads on real goroutines under -race: 2..4 recorders (each with an own device plus one shared device), one refresher (sometimes two, overlapping) looping Refresh against an uploader with a cyclic S/F script that yields while in flight; conservation at quiescence, untorn metadata always, exact last-writer metadata for single-writer devices; non-trivial = some Record landed while a failing upload was in flight; distinct by workload shape",
-		"record-during-failed-upload", "record-during-successful-upload", "overlapping-uploads")
+		"rapid-drawn workloads on real goroutines under -race: 2..4 recorders (each with an own device plus one shared device), one refresher (sometimes two, overlapping) looping Refresh (every k-th call with an already-cancelled context) against an uploader with a cyclic S/F script that yields while in flight; conservation at quiescence, untorn metadata always, exact last-writer metadata for single-writer devices; non-trivial = some Record landed while a failing upload was in flight; distinct by workload shape",
+		"record-during-failed-upload", "record-during-successful-upload", "overlapping-uploads", "upload-with-done-context-nonempty")
 	st.Finish(t)
 
 	rapid.Check(t, func(t *rapid.T) {
@@ -208,6 +215,10 @@ func TestVerifC16Concurrent(t *testing.T) {
 		two := rapid.IntRange(0, 2).Draw(t, "secondRefresher") == 0
 		minRefr := rapid.IntRange(2, 8).Draw(t, "minRefreshes")
 		gap := rapid.IntRange(0, 10).Draw(t, "refreshGap")
+		// Every doneEvery-th Refresh gets an already-cancelled context.
+		doneEvery := rapid.SampledFrom([]int{0, 2, 3, 5}).Draw(t, "doneCtxEvery")
+		doneCtx, cancelDone := context.WithCancel(context.Background())
+		cancelDone()
 
 		recordsN := &atomic.Int64{}
 		up := &vc16ConcUploader{
@@ -264,7 +275,12 @@ func TestVerifC16Concurrent(t *testing.T) {
 				defer refWG.Done()
 				<-start
 				for j := 0; j < 100_000 && (j < minRefr || !done.Load()); j++ {
-					_ = r.Refresh(ctx)
+					if doneEvery > 0 && j%doneEvery == doneEvery-1 {
+						_ = r.Refresh(doneCtx)
+					} else {
+						_ = r.Refresh(ctx)
+					}
+
 					for y := 0; y < gap; y++ {
 						runtime.Gosched()
 					}
@@ -326,8 +342,8 @@ func TestVerifC16Concurrent(t *testing.T) {
 		up.mu.Unlock()
 
 		if len(errs) > 0 {
-			t.Fatalf("workload recorders=%d records=%v outcomes(fail)=%v uploadYields=%d twoRefreshers=%t uploads=%d:\n%s",
-				nG, total, outcomes, yields, two, calls, strings.Join(errs[:min(len(errs), 6)], "\n"))
+			t.Fatalf("workload recorders=%d records=%v outcomes(fail)=%v uploadYields=%d twoRefreshers=%t doneCtxEvery=%d uploads=%d:\n%s",
+				nG, total, outcomes, yields, two, doneEvery, calls, strings.Join(errs[:min(len(errs), 6)], "\n"))
 		}
 
 		cl := []string{}
@@ -339,14 +355,18 @@ func TestVerifC16Concurrent(t *testing.T) {
 			cl = append(cl, "two-refreshers")
 		}
 
+		if doneEvery > 0 {
+			cl = append(cl, "refreshes-with-done-context")
+		}
+
 		nt := ""
 		if classes["record-during-failed-upload"] {
-			nt = fmt.Sprintf("%d/%v/%v/%d/%t/%d", nG, total, outcomes, yields, two, gap)
+			nt = fmt.Sprintf("%d/%v/%v/%d/%t/%d/%d", nG, total, outcomes, yields, two, gap, doneEvery)
 		}
 
 		st.Case(nt, cl...)
 		if nt != "" && st.WantSample() {
-			st.Sample(map[string]any{"recorders": nG, "records": total, "outcomes_fail": outcomes, "upload_yields": yields, "two_refreshers": two, "uploads": calls})
+			st.Sample(map[string]any{"recorders": nG, "records": total, "outcomes_fail": outcomes, "upload_yields": yields, "two_refreshers": two, "uploads": calls, "done_ctx_every": doneEvery})
 		}
 	})
 }
